@@ -55,7 +55,7 @@ type canonW struct {
 	depth int
 }
 
-const canonMaxDepth = 200
+const canonMaxDepth = 4000
 
 func (w *canonW) val(v any) {
 	w.depth++
@@ -284,11 +284,25 @@ func canonFull(e *expr.Expression) string {
 		return "E(nil)"
 	}
 	var sb strings.Builder
-	sb.WriteString(canonStruct(e))
+	cs := canonStruct(e)
+	sb.WriteString(cs)
+	if len(cs) > 60000 {
+		// a giant tree: the printed forms are quadratic in the depth; the structural
+		// form already determines them, so they are left out (deterministically)
+		sb.WriteString("|printed forms omitted for a giant tree")
+		return sb.String()
+	}
 	sb.WriteString("|S:")
 	sb.WriteString(guarded(func() string { return e.String() }))
 	sb.WriteString("|G:")
 	sb.WriteString(guarded(func() string { return e.GoString() }))
+	if len(cs) > 8000 {
+		// the library's MarshalJSON re-compacts every byte once per ancestor level:
+		// quadratic in the depth, seconds for a deep tree. The JSON form of big trees
+		// is exercised by the marshal operations themselves, not by every fingerprint.
+		sb.WriteString("|J:omitted for a big tree")
+		return sb.String()
+	}
 	sb.WriteString("|J:")
 	sb.WriteString(guarded(func() string {
 		b, err := json.Marshal(e)
